@@ -120,3 +120,12 @@ func (e *verifE1) FundingScript() ([]byte, int64, error) {
 
 // VerifExec runs btcd's script interpreter on input idx of tx.
 var VerifExec = verifExec
+
+// SetNoPendingFate makes every HTLC of the schedule eventually resolved.
+func (e *verifE1) SetNoPendingFate(v bool) { e.noPendingFate = v }
+
+// DustLimits returns A's and B's dust limits (sat).
+func (e *verifE1) DustLimits() (int64, int64) { return e.p.DustA, e.p.DustB }
+func (e *verifE1) AnchorsSat() int64          { return e.anchorsSat }
+func (e *verifE1) OpenerIdx() int             { return e.openerIdx() }
+func (e *verifE1) Rng() *VerifRng             { return e.r }
